@@ -751,9 +751,37 @@ func freshStructField(v ssa.Value, use *ssa.BasicBlock) ssa.Value {
 	}
 	a := freshAlloc(fa.X, use)
 	if a == nil {
+		// a field of a struct-typed field: outer.inner.f
+		if outer, isFA := fa.X.(*ssa.FieldAddr); isFA {
+			if oa := freshAlloc(outer.X, use); oa != nil {
+				if inner := singleFieldStore(oa, outer.Field); inner != nil {
+					return fieldOfStructValue(inner, fa.Field, use, 0)
+				}
+			}
+		}
 		return nil
 	}
 	return singleFieldStore(a, fa.Field)
+}
+
+// fieldOfStructValue: field #field of the struct value v, when v is (at use,
+// looking through the merges of result variables where only one edge can get
+// there) a copy of a struct this function built itself.
+func fieldOfStructValue(v ssa.Value, field int, use *ssa.BasicBlock, depth int) ssa.Value {
+	if depth > 4 {
+		return nil
+	}
+	if in, ok := v.(ssa.Instruction); ok && in.Block() != nil {
+		v = valueAtPhi(v, use)
+	}
+	if ld, ok := v.(*ssa.UnOp); ok && ld.Op == token.MUL {
+		if a := freshAlloc(ld.X, use); a != nil {
+			if w := singleFieldStore(a, field); w != nil {
+				return w
+			}
+		}
+	}
+	return nil
 }
 
 func freshAlloc(p ssa.Value, use *ssa.BasicBlock) *ssa.Alloc {
